@@ -684,6 +684,13 @@ def run_C03(ck):
             exp = open('/repo/tests/files/' + name[:-3], 'rb').read()
             cases.append({'line': 'xz_dec in=%s' % hx(raw), 'meta': {'file': name}, 'oracle': exact_oracle(exp), 'nontrivial': True})
             ck.count('repo_files')
+    # a block whose LZMA2 chunk has the largest legal compressed size (field 0xFFFF, 65536 payload bytes)
+    mp = max_packed_stream(rng)
+    if mp:
+        for ck_, wp_ in ((1, True), (4, False)):
+            blk = XzBlock(mp['bytes'], mp['out'], with_packed=wp_, with_unpacked=not wp_)
+            cases.append({'line': 'xz_dec in=%s' % hx(xz_file([blk], ck_)), 'meta': {'max_packed_chunk': True, 'check': ck_}, 'oracle': exact_oracle(mp['out']), 'nontrivial': True})
+            ck.count('block_with_packed_size_0xFFFF_chunk')
     # a file with 130-300 blocks: the index's record count needs a two-byte multibyte integer, and whatever grows per block grows
     tiny_pool = [p for p in pool if len(p['bytes']) < 40] or pool[:3]
     for nb_ in ([130] if ck.tier == 'quick' else [127, 128, 129, 300]):
@@ -806,6 +813,12 @@ def run_C06(ck):
     for f in files:
         for desc, m in xz_mutants(rng, f, 40):
             add(desc, m, f, False)
+        # an Index that is self-consistent (count, padding, CRC32, Backward Size all agree) but lists other records than the file has blocks
+        for desc, fn in (('index lists one record fewer', lambda rs: rs[:-1]), ('index lists no record', lambda rs: []),
+                         ('index lists one record more', lambda rs: rs + rs[-1:]), ('index lists the records in reverse', lambda rs: rs[::-1])):
+            if f['desc']['nblocks'] == 0: break
+            m = xz_file(f['blocks'], f['check'], mb_width=f['mbw'], tweak={'records': fn})
+            if m != f['bytes']: add(desc, m, f, False)
         b = f['bytes']
         crc_carrying = f['check'] in (1, 4) and f['desc']['nblocks'] > 0
         nflips = 25 if ck.tier == 'quick' else 120
@@ -960,6 +973,14 @@ def run_C17(ck):
         w_ = walk_lzma2(b)[0]
         for m_ in (w_['payload_len'] - 1, rng.range(1, w_['payload_len'] - 1)):
             add('packed_field_reduced_big', b[:3] + struct.pack('>H', m_ - 1) + b[5:], False)
+    # a chunk whose compressed size is in the upper half of the 16-bit field (payload of 65536 bytes from the crate's encoder):
+    # the field alone reduced, and the field reduced together with the payload
+    mp = max_packed_stream(rng)
+    if mp:
+        b = mp['bytes']
+        for newpk in (65535, 65532, 49152, 32769, 32768, 32767):
+            add('packed_field_reduced_above_32k', b[:3] + struct.pack('>H', newpk - 1) + b[5:], False)
+            add('packed_too_small_above_32k', b[:3] + struct.pack('>H', newpk - 1) + b[5:6] + b[6:6 + newpk] + b'\x00', newpk == 65535)
     # payload/size disagreements built from programs: overshooting match, marker inside the chunk
     reqs, metas = [], []
     for k in range(60 if ck.tier == 'quick' else 400):
@@ -1046,6 +1067,23 @@ def run_C18(ck):
                 nb2 = list(blocks)
                 nb2[i] = XzBlock(b0.payload, b0.content, with_packed=b0.with_packed, with_unpacked=b0.with_unpacked, flags_extra=bit)
                 add('block_flag_reserved=%#x' % bit, xz_file(nb2, f['check'], mb_width=f['mbw']))
+        if nb:
+            # filter CHAINS in which an unsupported filter stands beside LZMA2 (first, middle or last), the payload nested once per
+            # filter so that a decoder treating every link as LZMA2 would decode it
+            def stored_(b_):
+                out_, first_ = b'', True
+                for i_ in range(0, len(b_), 65536):
+                    out_ += bytes([1 if first_ else 2]) + struct.pack('>H', len(b_[i_:i_ + 65536]) - 1) + b_[i_:i_ + 65536]; first_ = False
+                return out_ + b'\x00'
+            L2 = (0x21, b'\x16')
+            fi = files.index(f)
+            for ci, chain in enumerate(([L2, (3, b'\x00')], [(3, b'\x00'), L2], [L2, (4 + fi % 6, b'\x00')], [L2, L2, (3, b'\x01')], [L2, (0x22 + fi, b'\x16'), L2], [L2, (3, b'\x00'), (3, b'\x00'), L2])):
+                if (ci + fi) % 2: continue
+                pl_ = b0.payload
+                for _ in range(len(chain) - 1): pl_ = stored_(pl_)
+                nb2 = list(blocks)
+                nb2[i] = XzBlock(pl_, b0.content, with_packed=b0.with_packed, with_unpacked=b0.with_unpacked, filters=chain)
+                add('filter_chain=%s' % '-'.join('%x' % c_[0] for c_ in chain), xz_file(nb2, f['check'], mb_width=f['mbw']))
         if nb and rng.chance(1, 2):
             eb = [XzBlock(b'\x00', b'', with_packed=rng.chance(1, 2), with_unpacked=rng.chance(1, 2)) for _ in range(nb)]
             for cid in (10, rng.choice([2, 3, 5, 9, 11, 15])):
@@ -1250,6 +1288,15 @@ def run_C05(ck):
                 cases.append({'line': 'stream opt=rfh allow=%d calls=%s' % (allow_, stream_calls(data, l2_)), 'meta': {'kind': 'cheap_tail', 'opt': 'rfh', 'allow': allow_, 'pieces': len(l2_)},
                               'oneshot': one, 'n': len(data), 'npieces': len(l2_)})
                 ck.count('kind_cheap_tail')
+        # the same stream under a memory limit below / at / above what its output needs (the dictionary itself is larger):
+        # one-shot and streaming decoders must agree on whether the limit is hit
+        for mem_ in (n_ // 2, n_ - 1, n_, 4095, 4096):
+            one_m = {'line': 'lzma_dec opt=rfh mem=%d in=%s' % (mem_, hx(data)), 'meta': {'kind': 'memlimit', 'opt': 'rfh', 'mem': mem_, 'n_out': n_}}
+            cases.append(one_m)
+            for l2_ in ([len(data)], [18, len(data) - 18], [13] + [7] * ((len(data) - 13) // 7 + 1)):
+                cases.append({'line': 'stream opt=rfh mem=%d allow=%d calls=%s' % (mem_, mem_ % 2, stream_calls(data, l2_)), 'meta': {'kind': 'memlimit', 'opt': 'rfh', 'mem': mem_, 'n_out': n_, 'pieces': len(l2_)},
+                              'oneshot': one_m, 'n': len(data), 'npieces': len(l2_)})
+                ck.count('kind_memlimit')
     cases.append({'line': 'stream opt=rfh calls=x', 'meta': {'kind': 'empty'}, 'empty': True})
     cases.append({'line': 'stream opt=rfh calls=W:-;W:-;x', 'meta': {'kind': 'empty'}, 'empty': True})
     run_both(ck, cases)
@@ -1291,6 +1338,14 @@ def run_C08(ck):
         if enc is None: raise InfraError('reference encoder rejected a C08 program')
         b, out = enc; T = meta['n']
         payload = b[13:]
+        # a provided size of all-ones is a size like any other (only the HEADER field's all-ones means "unknown")
+        for opt, hl in (('rhp:%d' % ALL_ONES, 13), ('up:%d' % ALL_ONES, 5)):
+            for field in (ALL_ONES, T):
+                data = b[:5] + (struct.pack('<Q', field) if hl == 13 else b'') + payload
+                m = {'eff': ALL_ONES, 'T': T, 'marker': meta['marker'], 'trailing': 0, 'opt': opt, 'hsize': 'ones' if field == ALL_ONES else str(T), 'hdrlen': hl}
+                cases.append({'line': 'lzma_dec opt=%s in=%s' % (opt, hx(data)), 'meta': m, 'expect': 'err' if meta['marker'] else None, 'true_out': out, 'paylen': len(payload)})
+                ck.count('provided_size_all_ones')
+                if hl == 5: break
         for hsize in ['ones', T, T - 1, T + 1, 0, 1 << 63, T + (1 << 32), T + (rng.range(2, 1000) << 32)]:    # incl. sizes equal to the true one modulo 2^32
             field = ALL_ONES if hsize == 'ones' else max(0, hsize)
             for trailing in ([b''] if not quick or rng.chance(2, 3) else []) + ([rng.bytes(rng.range(1, 9))] if rng.chance(1, 3) else []):
@@ -2011,6 +2066,14 @@ def run_C14(ck):
         b = e[0]
         fresh = {'line': 'raw_lzma lc=%d lp=%d pb=%d dict=4096 size=none ops=d:%s' % (lc, lp, pb, hx(b)), 'meta': {'api': 'lzma', 'fresh': True}}
         cases.append(fresh)
+        # special sizes given to reset vs. given to the constructor (all-ones is a size like any other for the raw decoder)
+        for sz in (ALL_ONES, 0, pbld.n, pbld.n + 1):
+            fr_ = {'line': 'raw_lzma lc=%d lp=%d pb=%d dict=4096 size=%d ops=d:%s' % (lc, lp, pb, sz, hx(b)), 'meta': {'api': 'lzma', 'fresh': True}}
+            for init in ('none', '3'):
+                ru_ = {'line': 'raw_lzma lc=%d lp=%d pb=%d dict=4096 size=%s ops=rs:%d;d:%s' % (lc, lp, pb, init, sz, hx(b)), 'meta': {'api': 'lzma', 'history': ['reset_to_special_size'], 'final_reset': 'rs:%d' % sz}}
+                ru_['fresh'] = fr_
+                cases.append(ru_)
+            cases.append(fr_); ck.count('lzma_reset_to_special_size')
         # one history per cut (a later, longer truncated decode could complete a symbol and thereby hide what the first one left behind)
         for c_ in (5, 6, 7, rng.range(8, max(8, len(b) - 1))):
             if c_ >= len(b): continue
@@ -2118,7 +2181,10 @@ def run_C15(ck):
             if s.get('big') and s['dict'] <= 8192 and s['n'] > max(s['dict'], 4096):
                 # output longer than the dictionary: a limit equal to the dictionary is never reached, whatever size is declared
                 mem_ = ' mem=%d' % (max(s['dict'], 4096) + (cut % 2))
-            c = {'line': 'stream opt=%s%s allow=1 calls=%s' % (opt, mem_, calls), 'meta': {'cut': cut, 'of': len(b), 'pieces': len(lens), 'opt': opt, 'mem': mem_.strip()}, 'true_out': s['out'], 'cut': cut, 'need': hdr + 5}
+            # sinks that take only part of what is offered (write_all must deliver the rest), on every wrapping stream and on a third of the others
+            wr_ = ' wr=%s' % ['3,1', '1', '1000,7'][cut % 3] if s.get('big') or cut % 3 == 1 else ''
+            if wr_: ck.count('short_writing_sink')
+            c = {'line': 'stream opt=%s%s allow=1 calls=%s%s' % (opt, mem_, calls, wr_), 'meta': {'cut': cut, 'of': len(b), 'pieces': len(lens), 'opt': opt, 'mem': mem_.strip(), 'wr': wr_.strip()}, 'true_out': s['out'], 'cut': cut, 'need': hdr + 5}
             # what is determined by the input minus the allowed look-ahead
             short = b[:max(0, cut - 64)]
             c['short'] = {'line': 'stream opt=%s%s allow=1 calls=W:%s;x' % (opt, mem_, hx(short)), 'meta': {'aux': 'prefix minus 64'}}
@@ -2231,6 +2297,21 @@ def run_C16(ck):
             cases.append({'line': 'stream opt=%s calls=%s' % (sopt, ';'.join(calls)), 'meta': {'kind': 'cut_in_match', 'n': cut, 'opt': sopt}, 'n': cut, 'style': 'cut',
                           'kind': 'cut_in_match', 'true_out': None, 'valid_len': l1 - (13 - hdr)})
             ck.count('kind_cut_in_match')
+    # a SINK error in mid-stream (at a window flush of a stream longer than its dictionary), of every error kind: the failed
+    # write latches like any other failure
+    kinds_ = ['other', 'eof', 'wouldblock', 'invalid', 'pipe']
+    for si, s in enumerate(gen_wrap_streams(rng, 2 if quick else 10)):
+        b = s['bytes']
+        for ki, kind_ in enumerate(kinds_):
+            k = [64, 200, 1000][(si + ki) % 3]
+            calls = []
+            for p_ in pieces(b, [k] * (len(b) // k + 1)):
+                if p_: calls.append('%s:%s' % ('W' if (si + ki) % 2 else 'w', hx(p_))); calls.append('g'); calls.append('o')
+            calls += ['f', 'w:0011', 'g', 'x']
+            for wf in (1, 2):
+                cases.append({'line': 'stream opt=rfh calls=%s wr=all wfail=%d ekind=%s' % (';'.join(calls), wf, kind_), 'meta': {'kind': 'sink_error', 'style': s['style'], 'n': s['n'], 'opt': 'rfh', 'ekind': kind_, 'wfail': wf},
+                              'n': s['n'], 'style': s['style'], 'kind': 'sink_error', 'true_out': s['out'], 'valid_len': len(b)})
+                ck.count('kind_sink_error')
     run_both(ck, cases)
     for c in cases:
         res = c['r'].get('res', '').split(';')
